@@ -143,6 +143,7 @@ extern uint64_t (*sim_seq_cb)(void);  // harness global event counter for I/O ca
 extern void (*sim_on_deadlock)(void);
 // called when the step cap is exceeded
 extern void (*sim_on_stepcap)(void);
+extern void (*sim_on_capacity)(const char *what);   // the run exceeds what the simulator can hold: inconclusive, not a verdict
 
 /* hooks called from libdispatch (DISPATCH_VERIF) and from tsanrt.c */
 void _dispatch_verif_point(const volatile void *addr, int post);
